@@ -342,6 +342,37 @@ def h_help_and_ghist(ci: int, shard=None) -> None:
                     raise Violation(f"layout :: console help: colored text with sequences removed differs from the no_color text:\n{strip_sgr(c)[:200]}\n---\n{p[:200]}")
 
 
+def h_table_refmt(fi: int, nc: bool, shard=None) -> None:
+    """the same table re-formatted after a rendering renders as a fresh table given the same format (nothing of the earlier
+    rendering - detected widths, skipped lines - may survive in the new format)"""
+    from ak.ppobj import PPEnumFieldType, PPTable
+    fmts = [";1:0", ";*", "id,name:2-9", ";2:1", "name!,id;1:1", "id:1-3,st/name;0:2", ""]
+    reject_unless(0 <= fi < len(fmts))
+    fi, nc = realize(fi), realize(nc)
+    with concrete():
+        recs = RECORDS + [(77777, "a very long name indeed", 10)]
+
+        def mk():
+            return PPTable(recs, fmt="id,st,name:2-30", fields=["id", "name", "st"], fields_types={"st": PPEnumFieldType({10: "Active", 999: ("Error status", "name_warn")})},
+                           limits=(None, None))
+        used, fresh = mk(), mk()
+        str(used.ch_text(no_color=nc))          # rendered once (all records: the widest cell is seen)
+        used.fmt = fmts[fi]
+        fresh.fmt = fmts[fi]
+        a, b = str(used.ch_text(no_color=nc)), str(fresh.ch_text(no_color=nc))
+        if a != b:
+            raise Violation(f"memory :: table rendered, then given fmt {fmts[fi]!r}: renders differently from a fresh table given the same fmt:\n{a[:400]}\n---\n{b[:400]}")
+        # a second table that takes over the format object of a rendered one
+        try:
+            other_used = PPTable(recs[:2], fmt_obj=used.fmt)
+            other_fresh = PPTable(recs[:2], fmt_obj=mk().fmt if not fmts[fi] else fresh.fmt)
+        except TypeError:
+            return
+        a, b = str(other_used.ch_text(no_color=nc)), str(other_fresh.ch_text(no_color=nc))
+        if a != b and not fmts[fi]:
+            raise Violation(f"memory :: a table built over the format object of a rendered table renders differently from one built over the format object of an unrendered table:\n{a[:300]}\n---\n{b[:300]}")
+
+
 def jobs(tier: str) -> List[Job]:
     t = tier == "thorough"
     js = []
@@ -354,5 +385,6 @@ def jobs(tier: str) -> List[Job]:
                       budget_s=3000 if t else 110, label=f"history:n3:first={k0}"))
     if t:
         js.append(Job(__name__, "h_history", shard={"n": 4, "k0": 0, "tail_kinds": [0, 3], "tail_flags": few_flags}, budget_s=3000, label="history:n4:first=0"))
+    js.append(Job(__name__, "h_table_refmt", shard={}, budget_s=100, label="table-reformatted-after-rendering", must_exhaust=True))
     js.append(Job(__name__, "h_help_and_ghist", shard={}, budget_s=100, label="console-help", must_exhaust=True))
     return js
